@@ -42,11 +42,19 @@ def cases(tier, rng):
     from gen import C01
     for c, t in C01.large_cases(tier, rng):
         if t == "large": out.append((c.replace("(ask 0))", "(ask 0) (ask 0) (ask 0) (ask 0) (ask 0) (ask 0) (ask 0) (ask 0))"), "large"))
+    from gen.progs import fact as _fact
+    items = [_fact("item", i(k), atom("v%d" % k)) for k in range(1, 301)] + [_fact("cand", i(k)) for k in range(1, 301)] + [_fact("wanted", i(290)), _fact("wanted", i(299)),
+             rule(cplx("pick", X), AND(C("cand", X), C("wanted", X)))]
+    for q in ([atom("item"), i(290), var(0, "$V")], [atom("item"), i(256), var(0, "$V")], [atom("item"), i(257), var(0, "$V")], [atom("pick"), var(0, "$P")], [atom("item"), var(0, "$K"), atom("v300")]):
+        out.append((progs.hist(items, [progs.build(0, q)] + [progs.ask(0)] * 5), "large"))
+        out.append((progs.hist(items, [progs.build(0, q)] + ["(solve 0)"] * 4), "large"))
+        # asked with bare next_solution right after ANOTHER query was answered through solve (its timer cancelled)
+        out.append((progs.hist(items, [progs.build(1, [atom("wanted"), var(0, "$W")]), progs.build(0, q), "(solve 1)", "(solve 1)"] + [progs.ask(0)] * 4), "large"))
     out.append((progs.hist(list(progs.LIB), [progs.build(0, [atom("n"), var(0, "$Q")])] + [progs.ask(0)] * 64), "asked-64-times"))
     out.append((progs.hist(list(progs.LIB), [progs.build(0, [atom("path"), var(0, "$A"), var(0, "$B")])] + [progs.ask(0)] * 40 + ["(solve 0)"] * 10), "asked-64-times"))
     return out
 
-RULE = ("(0) large programs (predicates of 12-40 clauses, chains 30 links deep, up to 60 answers) asked 8 times beyond their last answer, small queries asked 50-64 times; "
+RULE = ("(0) large programs (predicates of 12-40 clauses, chains 30 links deep, up to 60 answers) asked 8 times beyond their last answer, small queries asked 50-64 times, 300-clause predicates and a conjunction that rejects 289 candidates before its first answer (also asked with next_solution after another query was finished by solve); "
         "(a) bodies of 1-3 goals over a 10-goal alphabet (multi-answer calls, =, >, fail, !, print, not(..)) in a($X) :- BODY. a(9). "
         "asked 9 times (all of them in the thorough tier, 35% in the quick tier); the same under a disjunction with not and "
         "cut through solve (8 times) and next_solution; time(G) (first answer only) for 4 goals G followed by 4 filters in 6 "
